@@ -76,8 +76,8 @@ check('C04', 'E2-world',
       'for the full result and requires get(view) == get()[view] in shape and content, and IndexedData values / masks / statistics / '
       'histograms to equal the parent slice. The attribute-kind x selection-kind x view-kind product is an input space: coverage is what '
       'the workload reaches (reported as fingerprints), not an enumeration.',
-      'glue is its own reference for the full array; the (dependency class, view kind) pairs of the 12 open findings (world-coordinate '
-      'dependent attributes under boolean / index-array / empty views, categorical selections under all-integer views) are excluded by guards.',
+      'glue is its own reference for the full array (a result that is wrong in full and under the view alike is invisible here). No generator '
+      'guard is left: the twelve (dependency class, view kind) findings of earlier rounds were repaired in /repo (51f37b9, e5ca478, a64e1b6, 8ff440a).',
       'deterministic simulation (history of reads / index changes / updates) + view-consistency invariant at observation time',
       'DESIGN.md section 7 C04')
 
